@@ -83,8 +83,16 @@ class PairCheck(Check):
             metas.append({'source': 'random', 'n': i, 'profile': prof, 'steps': len(sched)})
             applied += st['applied']
             skipped += st['skipped']
+        # the connection is closed at every point of a short exchange (zero-length, one-octet, multi-segment bundles)
+        cps = tp.close_point_schedules(tier)
+        for (i, (sched, what)) in enumerate(cps):
+            tr, st = tp.run_schedule(sched, profile=('tiny', 'tiny2')[i % 2], seed=seed * 31 + i)
+            traces.append(tr)
+            metas.append(dict(what, source='close-points'))
+            applied += st['applied']
+            skipped += st['skipped']
         self.extra_coverage = {'schedule_steps_applied': applied, 'schedule_steps_skipped': skipped,
-                               'tlc_schedules': len(scheds), 'random_schedules': nrand}
+                               'tlc_schedules': len(scheds), 'random_schedules': nrand, 'close_point_runs': len(cps)}
         return traces, metas
 
 
@@ -109,6 +117,10 @@ class C01(PairCheck):
                                                     sender_burst=rnd.choice([0, 6, 12, 30])))
             metas.append({'source': 'adaptive-pipelined', 'peer_mru': mru, 'bundles': nb, 'bytes': nbytes})
         self.extra_coverage['adaptive_pipelined_runs'] = n
+        (ktr, kme) = tcpcl_timers.keepalive_mid_drain_executions(tier, seed)
+        traces += ktr
+        metas += kme
+        self.extra_coverage['keepalive_mid_drain_runs'] = len(ktr)
         return traces, metas
 
 
@@ -137,6 +149,11 @@ class C04(PairCheck):
         traces += str_
         metas += sme
         self.extra_coverage['slow_negotiation_runs'] = len(str_)
+        # a timer firing while a large message is only partly written: what it sends must not land inside it
+        (ktr, kme) = tcpcl_timers.keepalive_mid_drain_executions(tier, seed)
+        traces += ktr
+        metas += kme
+        self.extra_coverage['keepalive_mid_drain_runs'] = len(ktr)
         return traces, metas
 
 
